@@ -425,9 +425,33 @@ def r4_5(ctx):
         ctx.bad("R4.5", ps.module, ps.qual, ".silent", "parser no longer sets cmd.silent exactly when `.SILENT` is given", ps.node.lineno)
 
 
+def r4_6(ctx):
+    """Queued (older) notifications are flushed before a STORE/FETCH produces newer flag information."""
+    from .common import admission_items
+
+    p = ctx.p
+    for m in ("do_store", "do_fetch"):
+        fi = p.func(f"client.Authenticated.{m}")
+        g = ctx.cfg(fi)
+        adm = set()
+        for w, c in admission_items(fi):
+            adm.update(n for n in g.nodes_for(w) if g.nodes[n].kind == "with_enter")
+        flush = {n.id for n in g.nodes if n.ast is not None and n.kind == "stmt" and any(call_name(c) == "send_pending_notifications" for c in calls_in(n.ast))}
+        ctx.require(adm, f"{m}: admission not found")
+        w = flow.escapes_without(g, g.entry, lambda n: n in flush, adm)
+        ctx.paths_explored += 1
+        if w:
+            ctx.bad("R4.6", fi.module, fi.qual, f"{m}: admission reachable without send_pending_notifications()", f"{m} can reach its operation without first flushing the session's queued notifications: a queued (older) FETCH FLAGS line is then delivered after the newer result of this command and the session's last-reported flags are stale", g.nodes[w[-1]].line, flow.fmt_path(g, w))
+        else:
+            ctx.ok("R4.6", where(fi), "queued notifications are flushed (or the command refused) on every path before the operation is admitted")
+
+
 def run(ctx):
+    r4_6(ctx)
     fmap, nons = r4_1(ctx)
     r4_2(ctx, fmap, nons)
     r4_3(ctx)
     r4_4(ctx)
     r4_5(ctx)
+    from . import c16
+    c16.r16_2(ctx)
